@@ -295,6 +295,10 @@ class RebuildCheck:
         gs.append({"kind": "dup", "scale": "R", "B": REAL_B, "P": P,
                    "sizes": [[s, s, t] for s in (1, P, P + 1, 2 * P + 1)
                              for t in (0, 5)], "seed": seed, "tier": tier})
+        # payloads whose piece string / pieces roots are well-formed text
+        gs.append({"kind": "lit", "scale": "R", "B": REAL_B, "P": 16384,
+                   "worlds": [list(t) for t in world.text_like_worlds()],
+                   "seed": seed, "tier": tier})
         gs.append({"kind": "batch", "seed": seed, "tier": tier})
         return gs
 
@@ -1005,6 +1009,15 @@ class RebuildCheck:
                 res.violation(sig, case, d)
             return res
         confirmed = {}
+        if g["kind"] == "lit":
+            for sh, sizes, cids in g["worlds"]:
+                w = {"scale": "R", "B": g["B"], "P": g["P"], "shape": sh,
+                     "sizes": sizes, "cids": cids}
+                for sig, case, d in self.c13_world(w, seed, res,
+                                                   scatters=["orig", "deep"]):
+                    res.violation(sig, case, d)
+                res.sample({"world": w})
+            return res
         if g["kind"] == "dup":
             allsizes = g["sizes"]
         else:
